@@ -529,6 +529,8 @@ func genRetry(ctx *Ctx, c04 bool) {
 		policyCases(ctx)
 	}
 	n := 3
+	// the exhaustive part below is also recorded at the proxy's own atomic steps and judged by the trace monitor
+	proxycore.VerifTraceStart()
 	e, err := newRetryEnv(ctx, n)
 	if err != nil {
 		panic(err)
@@ -556,6 +558,8 @@ func genRetry(ctx *Ctx, c04 bool) {
 			}
 		}
 	}
+	time.Sleep(50 * time.Millisecond)
+	emitTrace(ctx, true, "traced-run: every outcome sequence of length <= 2 for an idempotent and a non-idempotent statement")
 	if ctx.Thorough {
 		for _, k := range []stmtKind{kinds[1], kinds[3]} {
 			for _, a := range classes {
